@@ -19,6 +19,7 @@ let parse_op (tok : string) : op =
   | ('K' | 'D' | 'H' | 'G' | 'L' | 'B' | 'W'), _ -> OEnv
   | 'I', [sl] -> OInit (nat_ sl)
   | 'J', [sl] -> ORawInit (nat_ sl)
+  | 'V', [sl] -> ORawInit (nat_ sl)          (* uv_udp_t opened on the descriptor: a bare watcher *)
   | 'S', [h; m] -> OStart (nat_ h, mask_of_uv (int_of_string m))
   | 'T', [h; m] -> OStop (nat_ h, mask_of_uv (int_of_string m))
   | 'C', [h] -> OClose (nat_ h)
@@ -28,14 +29,22 @@ let parse_op (tok : string) : op =
   | 'R', _ -> ORun
   | _ -> failwith ("bad op " ^ tok)
 
+(* 'Q<h>,<sl>' = uv_close of a uv_udp_t, which owns its descriptor: uv__io_close, then close(fd) *)
+let parse_ops (tok : string) : op list =
+  if tok.[0] = 'Q' then
+    (match String.split_on_char ',' (String.sub tok 1 (String.length tok - 1)) with
+     | [h; sl] -> [OClose (nat_of_int (int_of_string h)); OCloseFd (nat_of_int (int_of_string sl))]
+     | _ -> failwith "bad Q")
+  else [parse_op tok]
+
 let case (line : string) : string =
   match String.split_on_char ';' line with
   | [hd; ops; behs; fds; pws] ->
       let (rng, strct) = match split_on ' ' hd with
         | [a; b] -> (int_of_string a <> 0, int_of_string b <> 0)
         | _ -> failwith "head" in
-      let ops = List.map parse_op (split_on ' ' ops) in
-      let beha = Array.of_list (List.map (fun b -> List.map parse_op (split_on ' ' b))
+      let ops = List.concat_map parse_ops (split_on ' ' ops) in
+      let beha = Array.of_list (List.map (fun b -> List.concat_map parse_ops (split_on ' ' b))
                                   (String.split_on_char '|' behs)) in
       let beh k = let k = int_of_nat k in if k < Array.length beha then beha.(k) else [] in
       let fda = Array.of_list (List.map int_of_string (split_on ' ' fds)) in
